@@ -9,8 +9,10 @@ every observed transition and every lookup result against the model.
 Tie (b): harness/c15_stress.cc under ThreadSanitizer and under ASan/UBSan (free-running threads,
 values that encode their key).  Data-race freedom of the compiled C++ is carried by (a)+(b): partial.
 """
+import glob
 import hashlib
 import json
+import os
 import re
 
 from vlib import common as C
@@ -41,6 +43,17 @@ def run(chk, replay=None):
         r = json.load(open(replay))["replay"]
         if "sched_args" in r:
             sched_args = r["sched_args"]
+
+    # ---- corpus: recorded traces the model must accept (the reference-variant witness included) ----
+    if drv_ok:
+        for f in sorted(glob.glob(os.path.join(C.ROOT, "corpus", "C15", "*.trace"))):
+            ls = [l.rstrip("\n") for l in open(f) if l.strip() and not l.startswith("#")]
+            ans = C.run_driver("c15_driver", ls)
+            chk.count("corpus-traces")
+            if any(x != "ok" for x in ans):
+                j = next(i for i, x in enumerate(ans) if x != "ok")
+                broken.append("the model no longer accepts the recorded trace %s at `%s`: %s" %
+                              (os.path.basename(f), ls[j], ans[j]))
 
     # ---- (a) schedule replay ---------------------------------------------
     exe = C.build_harness("c15_sched", "asan")
